@@ -33,6 +33,14 @@ def make_oracle(prop):
 
     def fn(ctx, item, s):
         fails = []
+        if isinstance(s, pd.DataFrame):
+            if prop in ("C07", "C09"):
+                return []
+            for name, ts in ctx["typesets"].items():
+                for f in spec["fn"](ts, name, s, "frame"):
+                    f["frame_recipe"] = item["recipe"]
+                    fails.append(f)
+            return fails
         for name, ts in ctx["typesets"].items():
             if prop == "C07":
                 fails += D.c07_one(ts, name, item, s)
@@ -81,6 +89,8 @@ def make_oracle(prop):
 
 def rebuild(r):
     s = streams.materialise({"recipe": r["recipe"]})
+    if isinstance(s, pd.DataFrame):
+        return s
     b = r.get("backend", "pandas")
     if b == "numpy":
         return s.to_numpy()
@@ -128,6 +138,9 @@ def run(prop, args, extra_trusted=(), rule_extra=""):
     items = streams.all_streams(rnd, "quick", n_fam=9000 if deep else 1200, n_mixed=2500 if deep else 300)
     if deep:
         items += streams.bx_stream(2, rnd, limit=12000)
+    if prop in ("C03", "C04", "C05", "C06"):
+        k = len(streams.bank_stream())
+        items = items[:k] + streams.frame_stream() + items[k:]
     tss = typesets_for(prop, deep)
     ctx = {"typesets": tss, "std": streams.shipped_typesets()["StandardSet"]}
     new, seen_known, kn = oracle.run_oracle(run, prop, items, make_oracle(prop), ctx)
